@@ -25,7 +25,9 @@ FS_HINTS = [("do-nothing", ""), ("node-file-delete", "'a.txt'"), ("node-file-del
 
 
 def plan(tier):
-    P = [x for x in c01.scenarios(tier) if not x[0].endswith(("-reset", "-noclient"))]  # (the power-cycle harness is about exceptions: C01)
+    # (the threat-actor interference harnesses are about exceptions: C01; here the shipped UC7 scenarios keep a short horizon)
+    P = [x for x in c01.scenarios(tier) if not x[0].endswith(("-reset", "-noclient")) and x[0] != "uc7_tap003"]
+    P.append(("uc7_tap003", HE.SHIPPED["uc7_tap003"], "dev", dict(H=12 if tier == "thorough" else 2, k=1, reset_seed=None)))
     for v in (HE.GEN[0], HE.GEN[1]):  # members that observe the access counts (nested and flattened)
         P.append((v["name"] + "-fs2", HE.gen_scenario(v), "bfs", dict(depth=3 if tier == "thorough" else 2, budget=60000, hints=FS_HINTS)))
     return P
